@@ -366,7 +366,8 @@ Section Actions.
         destruct (Hinit eq_refl) as [-> Hnd].
         destruct (init_wraps c); [|split; reflexivity].
         split.
-        - unfold eval_df; simpl. apply wrap_eval. simpl. rewrite out_cols_passthrough. exact Hnd.
+        - transitivity (eval_df (wrap (init_df ics)) input); [reflexivity|].
+          apply wrap_eval. simpl. rewrite out_cols_passthrough. exact Hnd.
         - unfold columns, wrap, set_last; simpl. rewrite !out_cols_passthrough. reflexivity. }
       destruct H0 as [He0 Hc0].
       destruct (pre_init_last d Hr) as [Hr0 _].
@@ -382,7 +383,7 @@ Section Actions.
           with (eval_block (body c (OLimit n) (cur d0)) (source d0 input)).
         rewrite (body_limit c Hlim). change (eval_block (cur d0) (source d0 input)) with (eval_df d0 input).
         rewrite He0. reflexivity.
-      - unfold columns; cbn [cur]. rewrite <- Hc0. unfold columns. destruct (b_limit (cur d0)); reflexivity.
+      - transitivity (columns d0); [reflexivity | exact Hc0].
     Qed.
 
     Theorem head_any d ics input n :
